@@ -94,6 +94,8 @@ class Rec:
         self.deco_pop = None      # population right after a (re)decoration (current Step)
         self.cb = []              # callback arguments
         self.perms = []           # results of numpy.argsort during the current Step (Nelder-Mead)
+        self.call_ctx = []        # per real cost call: which penalty / constraints / box / reducer were in force
+        self.nstep = 0            # number of _Step executions so far
 
 
 def _vec(x):
@@ -129,6 +131,11 @@ def instrument(solver, rec):
         solver._cost = (recording, solver._cost[1], solver._cost[2])
         return recording
     solver._decorate_objective = deco
+    orig_step = solver._Step
+    def counted(*a, **k):
+        rec.nstep += 1
+        return orig_step(*a, **k)
+    solver._Step = counted
 
 
 class StrategyPatch:
@@ -173,8 +180,16 @@ def snapshot(solver, rec, msg=None):
         bestX=_vec(solver.bestSolution), bestE=fl(solver.bestEnergy),
         evals=int(solver.evaluations), gens=int(solver.generations),
         ehist=[fl(e) for e in solver.energy_history], shist=[_vec(x) for x in solver.solution_history],
-        emx=emx, emy=emy, ncalls=len(rec.cost_calls), msg=msg_kind(msg), ncb=len(rec.cb),
+        emx=emx, emy=emy, ncalls=len(rec.cost_calls), msg=msg_kind(msg), ncb=len(rec.cb), nstep=rec.nstep,
+        term_now=_term_now(solver), exitreq=bool(solver._EARLYEXIT), nsm=len(solver._stepmon),
         maxiter=_lim(solver._maxiter), maxfun=_lim(solver._maxfun), live=bool(solver._live))
+
+
+def _term_now(solver):
+    try:
+        return bool(solver._termination(solver))
+    except Exception:
+        return None
 
 
 def _lim(v):
@@ -266,9 +281,12 @@ def _run_ops(case, kind, rec, solver, trace, opres, cb, step_inputs, one_step, s
             msg = None
             if o == "SetObjective":
                 f = make_cost(op["cost"])
+                state["cost_k"] = len(opres)
                 def cost(x, f=f, k=len(opres)):
                     y = f(x)
                     rec.cost_calls.append((_vec(x), _yv(y), k))
+                    rec.call_ctx.append(dict(pen_k=state.get("pen_k"), cons_k=state.get("cons_k"), box=state.get("box"),
+                                             red=state.get("red"), nstep=rec.nstep))
                     return y
                 solver.SetObjective(cost)
             elif o == "SetPenalty":
@@ -278,6 +296,7 @@ def _run_ops(case, kind, rec, solver, trace, opres, cb, step_inputs, one_step, s
                     rec.pen_tab.append((_vec(x), float(y), k))
                     return y
                 solver.SetPenalty(pen if op["pen"]["kind"] != "none" else None)
+                state["pen_k"] = len(opres)
             elif o == "SetConstraints":
                 c = make_cons(op["cons"])
                 def cons(x, c=c, k=len(opres)):
@@ -287,7 +306,9 @@ def _run_ops(case, kind, rec, solver, trace, opres, cb, step_inputs, one_step, s
                     return y
                 solver.SetConstraints(cons if op["cons"]["kind"] != "ident" or op["cons"].get("inplace") else None)
                 state["inplace"] = bool(op["cons"].get("inplace"))
+                state["cons_k"] = len(opres)
             elif o == "SetStrictRanges":
+                state["box"] = None if op["lo"] is None else len(opres)
                 if op["lo"] is None:
                     solver.SetStrictRanges(False, False)
                 else:
@@ -298,6 +319,7 @@ def _run_ops(case, kind, rec, solver, trace, opres, cb, step_inputs, one_step, s
                         kw["clip"] = op["clip"]
                     solver.SetStrictRanges(list(op["lo"]), list(op["hi"]), **kw)
             elif o == "SetReducer":
+                state["red"] = op["red"]
                 if op["red"] is None:
                     solver.SetReducer(None)
                 elif op["red"] == "sum":
@@ -347,7 +369,7 @@ def _run_ops(case, kind, rec, solver, trace, opres, cb, step_inputs, one_step, s
             opres.append(res)
             trace.append(snapshot(solver, rec, msg))
     return dict(trace=trace, opres=opres,
-                calls=[dict(x=x, y=y, k=k) for x, y, k in rec.cost_calls],
+                calls=[dict(x=x, y=y, k=k, **c) for (x, y, k), c in zip(rec.cost_calls, rec.call_ctx)],
                 cons_tab=[list(t) for t in rec.cons_tab], pen_tab=[list(t) for t in rec.pen_tab], cb=rec.cb)
 
 
